@@ -227,6 +227,15 @@ def c11_events(ctx, binp):
     nruns = 6 if tier == "quick" else 60
     for k in range(nruns):
         settings, fps = gen_settings(rng, throttle=(k % 3 == 2))
+        if k % 6 == 1:
+            # always present: only one of the optional threshold limits set, and min-secs < max-secs
+            settings["motion"].pop("temp-thresh-max", None)
+            settings["motion"]["temp-thresh-min"] = 50
+            settings["max"] = settings["min"] + rng.choice([1, 2])
+        if k % 6 == 3:
+            settings["motion"].pop("temp-thresh-min", None)
+            settings["motion"]["temp-thresh-max"] = 5000
+            settings["max"] = settings["min"] + rng.choice([1, 2])
         if settings["throttle"]:
             settings["bucket"], settings["refill"] = "1h", "10m"      # a budget nothing here can exhaust: same files as off
         elif k % 3 == 1:
